@@ -1123,6 +1123,17 @@ def linspace(lo, hi, num=50, **k):
                 lambda t: z3.If(nt == 1, lt, lt + z3.ToReal(t) * step), "f")
 
 
+def logspace(lo, hi, num=50, base=10.0, **k):
+    """ASSUMED: base ** linspace(lo, hi, num) (end points base**lo and base**hi)"""
+    if not anysym(lo, hi, num):
+        return _np.logspace(lo, hi, num, base=base, **k)
+    lin = linspace(lo, hi, num)
+    if base == _np.e:
+        Ctx.cur.trust("numpy:logspace(base=e) = exp(linspace)")
+        return realfn.apply("exp", lin)
+    return realfn.power(base, lin)
+
+
 def fromiter(it, dtype=None, **k):
     if not _sym(it):
         return _np.fromiter(it, dtype=dtype, **k)
